@@ -452,6 +452,8 @@ def harnesses(tier):
     for cls in ('string', 'formula', 'list', 'item-base'):
         add(h_registered_defaults, 'registered_defaults', dict(cls=cls), 'kwargs / dict / empty / overriding configuration', validate=False)
     import vchecks.c08 as c08
+    import vchecks.c09 as c09
+    add(c09.h_suffix_isolation, 'suffix_isolation', {}, 'a metric-suffix grader built before / after / both: other graders and the class-level suffix table are unaffected')
     add(c08.h_matrix_messages, 'matrix_messages', dict(length=2), 'all sequences of 2 calls over 3 MatrixGraders x 4 inputs: no grader sees another one\'s wrong_msg', validate=False)
     add(c08.h_formula_messages, 'formula_messages', dict(length=2), 'all sequences of 2 calls over 3 FormulaGraders', validate=False)
     add(h_default_removal, 'default_removal', {}, '4 grader classes x 3 default constants suppressed with None, then one fresh grader of every class', validate=False)
